@@ -132,3 +132,101 @@ func (f *flipPhi) ApplyDistance(d float64) float64 {
 	}
 	return d * s
 }
+
+type inv interface{ Inverse() inv }
+
+type chain []inv
+
+// clean:INVORDER
+func (c chain) Inverse() inv {
+	res := make(chain, len(c))
+	for i, t := range c {
+		res[len(c)-1-i] = t.Inverse()
+	}
+	return res
+}
+
+type chainFwd []inv
+
+// want:INVORDER same position.
+func (c chainFwd) Inverse() inv {
+	res := make(chainFwd, len(c))
+	for i, t := range c {
+		res[i] = t.Inverse()
+	}
+	return res
+}
+
+type chainSwap []inv
+
+// clean:INVORDER clean:MIRRORSWAP
+func (c chainSwap) Inverse() inv {
+	res := make(chainSwap, len(c))
+	for i, t := range c {
+		res[i] = t.Inverse()
+	}
+	for i := 0; i < len(res)/2; i++ {
+		res[i], res[len(res)-1-i] = res[len(res)-1-i], res[i]
+	}
+	return res
+}
+
+type chainTwice []inv
+
+// want:INVORDER want:MIRRORSWAP every pair is swapped twice.
+func (c chainTwice) Inverse() inv {
+	res := make(chainTwice, len(c))
+	for i, t := range c {
+		res[i] = t.Inverse()
+	}
+	for i := range res {
+		k := len(res) - 1 - i
+		res[i], res[k] = res[k], res[i]
+	}
+	return res
+}
+
+// silent:MIRRORSWAP two indices that meet in the middle.
+func ReverseTwoPointer(s []int) {
+	for i, j := 0, len(s)-1; i < j; i, j = i+1, j-1 {
+		s[i], s[j] = s[j], s[i]
+	}
+}
+
+type nudge struct{ D model3d.Coord3D }
+
+func (n *nudge) Apply(c model3d.Coord3D) model3d.Coord3D { return c.Add(n.D) }
+
+// want:IDBOUNDS the box is not moved along.
+func (n *nudge) ApplyBounds(min, max model3d.Coord3D) (model3d.Coord3D, model3d.Coord3D) {
+	return min, max
+}
+
+type still struct{}
+
+func (s *still) Apply(c model3d.Coord3D) model3d.Coord3D { return c }
+
+// clean:IDBOUNDS the identity map.
+func (s *still) ApplyBounds(min, max model3d.Coord3D) (model3d.Coord3D, model3d.Coord3D) {
+	return min, max
+}
+
+type pile []model3d.Solid
+
+// clean:BOUNDFOLD
+func (p pile) Min() model3d.Coord3D {
+	res := p[0].Min()
+	for _, s := range p[1:] {
+		res = res.Min(s.Min())
+	}
+	return res
+}
+
+// want:BOUNDFOLD x and y of the earlier members are forgotten.
+func (p pile) Max() model3d.Coord3D {
+	top := p[0].Max()
+	for _, s := range p[1:] {
+		top = s.Max().Add(model3d.Z(top.Z - s.Min().Z))
+	}
+	return top
+}
